@@ -44,9 +44,11 @@ type tokens struct{ n int }
 func (t *tokens) s(prefix string) string { t.n++; return fmt.Sprintf("%s%d", prefix, 70000+t.n) }
 func (t *tokens) num() string            { t.n++; return strconv.Itoa(70000 + t.n) }
 
-var sysNames = []string{"open", "openat", "execve", "connect", "accept", "bind", "mount", "unlink", "rename", "chmod", "setuid", "kill", "ptrace",
+// (rapid favours the front of a list: the syscalls whose normalisation names a PATH record other than the first
+// come first)
+var sysNames = []string{"mkdir", "rename", "mount", "renameat", "mkdirat", "renameat2", "open", "openat", "execve", "connect", "accept", "bind", "unlink", "chmod", "setuid", "kill", "ptrace",
 	"socket", "sendto", "recvfrom", "mknod", "symlink", "chown", "init_module", "setxattr", "umount2", "clock_settime", "sethostname",
-	"mkdir", "mkdirat", "renameat", "renameat2", "link", "linkat", "rmdir", "creat", "truncate"}
+	"link", "linkat", "rmdir", "creat", "truncate"}
 
 var modeChoices = []uint32{0o100644, 0o100755, 0o104755, 0o040755, 0o041777, 0o020620, 0o060660, 0o120777, 0o140755, 0o010644}
 
@@ -58,6 +60,30 @@ func genSyscallRec(rt *rapid.T, tk *tokens) kenc.Rec {
 		return genSyscallRecNamed(rt, tk, all[int((uint64(rapid.Uint32().Draw(rt, "sysidx"))*0x9E3779B1>>7)%uint64(len(all)))])
 	}
 	return genSyscallRecNamed(rt, tk, rapid.SampledFrom(sysNames).Draw(rt, "sysname"))
+}
+
+var pathHintOnce sync.Once
+var pathHintMap map[string]int
+
+// pathHints: object_path_index of every syscall normalisation about a file or file system that has one
+func pathHints() map[string]int {
+	pathHintOnce.Do(func() {
+		pathHintMap = map[string]int{}
+		b, err := os.ReadFile("/repo/aucoalesce/normalizations.yaml")
+		if err != nil {
+			return
+		}
+		syscalls, _, err := aucoalesce.LoadNormalizationConfig(b)
+		if err != nil {
+			return
+		}
+		for name, n := range syscalls {
+			if n.ObjectPathIndex > 0 && (n.ObjectWhat == "file" || n.ObjectWhat == "filesystem") {
+				pathHintMap[name] = n.ObjectPathIndex
+			}
+		}
+	})
+	return pathHintMap
 }
 
 var normSysOnce sync.Once
@@ -87,7 +113,7 @@ func normSyscalls() []string {
 func genSyscallRecNamed(rt *rapid.T, tk *tokens, name string) kenc.Rec {
 	num, ok := uapi.S.Syscalls["x86_64"][name]
 	if !ok || rapid.IntRange(0, 9).Draw(rt, "unknownsys") == 0 {
-		num = 9999
+		num = rapid.SampledFrom([]int{9999, -1, 1<<30 | 1}).Draw(rt, "unknownsysnum")
 	}
 	// numbers: unique tokens most of the time (so that every value can be traced), but in a third of the records
 	// the small values real records carry — code that looks at what a number means is only reached by those
@@ -222,7 +248,7 @@ func genPathRec(rt *rapid.T, tk *tokens, item int) kenc.Rec {
 	if rapid.Bool().Draw(rt, "obj") {
 		f = append(f, kenc.P("obj", tk.s("ou")+":"+tk.s("or")+":"+tk.s("ot")+":"+tk.s("ol")))
 	}
-	f = append(f, kenc.P("nametype", rapid.SampledFrom([]string{"NORMAL", "NORMAL", "PARENT", "CREATE", "DELETE", "UNKNOWN"}).Draw(rt, "nametype")),
+	f = append(f, kenc.P("nametype", rapid.SampledFrom([]string{"NORMAL", "PARENT", "PARENT", "CREATE", "DELETE", "UNKNOWN", "NORMAL"}).Draw(rt, "nametype")),
 		kenc.P("cap_fp", tk.num()), kenc.P("cap_fi", tk.num()))
 	return kenc.Rec{Type: recgen.PATH, Fields: f}
 }
@@ -698,6 +724,32 @@ func propC09(c C09Case) error {
 			return fmt.Errorf("%s\n  %v", c.Describe(), err)
 		}
 		hC09.Class("file-summary-checked")
+		// which record: the normalisation of the syscall names the PATH record the event is about
+		// (object_path_index). When the event has more PATH records than that, the summary is never about a record
+		// in front of it, and it is about that very record unless its name type (PARENT, UNKNOWN) speaks against it.
+		// (an event led by a record of another type is normalised by that type's entry)
+		if h := pathHints()[ev.Data["syscall"]]; h > 0 && ev.Type == auparse.AUDIT_SYSCALL {
+			var paths []map[string]string
+			sel, matches := -1, 0
+			for _, s := range snaps {
+				if s.typ == recgen.PATH && s.err == "" {
+					if s.data["inode"] == ev.File.Inode {
+						sel = len(paths)
+						matches++
+					}
+					paths = append(paths, s.data)
+				}
+			}
+			if matches == 1 && len(paths) > h && len(paths) == len(ev.Paths) {
+				hC09.Class("file-summary-of-event-with-path-index-hint")
+				if sel < h {
+					return fmt.Errorf("%s\n  the normalisation of %s names PATH record %d as the object, the event has %d PATH records, and the file summary is about record %d (inode %s)", c.Describe(), ev.Data["syscall"], h, len(paths), sel, ev.File.Inode)
+				}
+				if nt := paths[h]["nametype"]; nt != "PARENT" && nt != "UNKNOWN" && sel != h {
+					return fmt.Errorf("%s\n  the normalisation of %s names PATH record %d as the object (nametype %q), the file summary is about record %d", c.Describe(), ev.Data["syscall"], h, nt, sel)
+				}
+			}
+		}
 	}
 	hC09.Class(fmt.Sprintf("records-%d", min(len(c.Recs), 8)))
 	if len(c.Recs) > 1 && c.Recs[0].Type != recgen.SYSCALL && len(c.Recs[0].User) > 0 {
